@@ -286,6 +286,7 @@ class H11(_Harness):
         r = run_cli(['-p', root, '-d', '5FFFFFFF'])
         res.append(("--delete of an unknown id: nothing removed, 'PEL not found'", snapshot(root) == after and 'PEL not found' in r['stdout'], dict()))
         r = run_cli(['-p', root, '-D'])
+        r = run_cli(['-p', root, '-D'])          # a second time, on the now empty top level
         final = snapshot(root)
         res.append(("--delete-all removes all and only the regular top-level files; sub-directories are untouched",
                     all('/' in k or v == 'dir' for k, v in final.items()) and all(k in final for k in after if '/' in k or after[k] == 'dir'), dict(final=sorted(final))))
